@@ -1246,3 +1246,32 @@ Proof.
     rewrite ?app_nil_r. unfold field_line, canon_fs. cbn [fs_ws1 fs_ws2 fs_cmt]. norm_app. reflexivity.
   - apply parse_render_canonical. constructor; [|constructor]. split; [apply long_record_valid | reflexivity].
 Qed.
+
+(* ------------------------------------------------------------ the inside of a value is free *)
+
+(* Only the ends of a value must be non-space: between them every byte except
+   '\n' and '#' (and braces outside `counter`) is allowed - carriage returns,
+   tabs, form feeds, Unicode spaces, control characters. *)
+Lemma plain_value_interior m :
+  has_byte 10 m = false -> has_byte 35 m = false -> has_byte 123 m = false -> has_byte 125 m = false ->
+  plain_value (120 :: m ++ [120]) = true.
+Proof.
+  intros H10 H35 H123 H125. unfold plain_value, valid_value.
+  rewrite !has_byte_cons, !has_byte_app, H10, H35, H123, H125.
+  cbn [is_empty negb andb orb N.eqb Pos.eqb has_byte existsb]. rewrite !andb_true_r.
+  unfold trimmed. apply andb_true_iff. split.
+  - apply no_lead_first; reflexivity.
+  - change (120 :: m ++ [120]) with ((120 :: m) ++ [120]). apply no_trail_last; reflexivity.
+Qed.
+
+Definition interior_record (m : bytes) : chart := mkChart (120 :: m ++ [120]) [] [] [] [] [] [] 0%Z 0 [].
+
+Theorem parse_render_interior pf rf m :
+  has_byte 10 m = false -> has_byte 35 m = false -> has_byte 123 m = false -> has_byte 125 m = false ->
+  parse pf (render_canonical rf false [interior_record m]) = POk [interior_record m].
+Proof.
+  intros H10 H35 H123 H125. apply parse_render_canonical. constructor; [|constructor]. split; [|reflexivity].
+  unfold valid_record, interior_record.
+  cbn [c_title c_description c_issue c_type c_program c_module c_counter c_depth c_error c_version].
+  unfold opt_plain at 1. rewrite (plain_value_interior m H10 H35 H123 H125), orb_true_r. reflexivity.
+Qed.
